@@ -93,3 +93,26 @@ Proof.
   - apply gradient_norm_relabel; assumption.
 Qed.
 Print Assumptions C08_terms_commute_with_axis_permutations.
+
+(* vector-valued (multi-channel) convection, both forms: when u' is the velocity field seen in the permuted frame - channel i of u' at the
+   re-labelled wavenumber is channel p_i of u - the term of u' is the term of u in the permuted frame: channels are permuted along with the axes *)
+Theorem C08_vector_convection_commutes_with_axis_permutations : forall (F : FieldT) (D : nat) (N Kc : Z) (p : list nat) (ii s b : F),
+  (0 < N)%Z -> (0 <= Kc)%Z -> Permutation p (seq 0 D) ->
+  forall (u u' : list (field F)) (i : nat) (k : idx), permuted_frame F D p u u' -> (i < D)%nat -> length k = D ->
+  nth i (conv_mc_cons F (prod2 F D N Kc) ii s D b u') (fzero F) (permi p k) = nth (nth i p 0%nat) (conv_mc_cons F (prod2 F D N Kc) ii s D b u) (fzero F) k
+  /\ nth i (conv_mc_noncons F (prod2 F D N Kc) ii s D b u') (fzero F) (permi p k)
+     = nth (nth i p 0%nat) (conv_mc_noncons F (prod2 F D N Kc) ii s D b u) (fzero F) k.
+Proof.
+  intros F D N Kc p ii s b HN HK Hp u u' i k HF Hi Hl. split.
+  - apply conv_mc_cons_frame; assumption.
+  - apply conv_mc_noncons_frame; assumption.
+Qed.
+Print Assumptions C08_vector_convection_commutes_with_axis_permutations.
+
+(* non-vacuity: in 2D with the axis swap p = [1; 0], u' = (u_1 o sigma, u_0 o sigma) is the field in the permuted frame *)
+Example C08_permuted_frame_exists : forall (F : FieldT) (u0 u1 : field F),
+  permuted_frame F 2 [1; 0]%nat [u0; u1] [relabel F [1; 0]%nat u1; relabel F [1; 0]%nat u0].
+Proof.
+  intros F u0 u1. split; [reflexivity | split; [reflexivity|]]. intros i x Hi Hx.
+  destruct x as [|a [|b [|]]]; try discriminate. destruct i as [|[|i]]; [reflexivity | reflexivity | lia].
+Qed.
